@@ -1,9 +1,481 @@
-use crate::report::*;
+//! C17 — working space is reused in place; rounds and non-growing resets never allocate
+//! shard-proportional memory.
+//! Monitor: counting global allocator with a per-thread recorder. Every history of <= d steps
+//! (rounds, abandoned rounds, resets, recycling through into_parts/new(Some(work)) into any rate)
+//! after constructing the object at the largest member of the alphabet is executed twice, at scale A
+//! and at scale B (all shard sizes doubled, or all counts doubled); the bytes allocated inside the
+//! measured region must not grow with the scale. A constant-size allocation (whatever its size) is
+//! therefore never an alarm; memory proportional to shard size or shard count is.
 use std::alloc::{GlobalAlloc, Layout, System};
+use std::cell::Cell;
+
+use crate::core::*;
+use crate::json::J;
+use crate::kv::*;
+use crate::report::*;
+use crate::with_engine;
+
+// ---------------------------------------------------------------- allocator
+
 pub struct CountingAlloc;
-unsafe impl GlobalAlloc for CountingAlloc {
-    unsafe fn alloc(&self, l: Layout) -> *mut u8 { System.alloc(l) }
-    unsafe fn dealloc(&self, p: *mut u8, l: Layout) { System.dealloc(p, l) }
+
+#[derive(Clone, Copy, Default)]
+pub struct Rec {
+    pub enabled: bool,
+    pub total: u64,
+    pub max: usize,
+    pub count: u64,
 }
-pub fn run(_ctx: &Ctx, rep: &mut Report) { rep.machinery_errors.push("not implemented".into()); }
-pub fn replay(_ctx: &Ctx, _case: &str) -> Result<(), String> { Err("not implemented".into()) }
+
+thread_local! {
+    static REC: Cell<Rec> = const { Cell::new(Rec { enabled: false, total: 0, max: 0, count: 0 }) };
+}
+
+#[inline]
+fn note(size: usize) {
+    let _ = REC.try_with(|r| {
+        let mut v = r.get();
+        if v.enabled {
+            v.total += size as u64;
+            v.count += 1;
+            if size > v.max {
+                v.max = size;
+            }
+            r.set(v);
+        }
+    });
+}
+
+unsafe impl GlobalAlloc for CountingAlloc {
+    unsafe fn alloc(&self, l: Layout) -> *mut u8 {
+        note(l.size());
+        System.alloc(l)
+    }
+    unsafe fn alloc_zeroed(&self, l: Layout) -> *mut u8 {
+        note(l.size());
+        System.alloc_zeroed(l)
+    }
+    unsafe fn realloc(&self, p: *mut u8, l: Layout, new_size: usize) -> *mut u8 {
+        if new_size > l.size() {
+            note(new_size);
+        }
+        System.realloc(p, l, new_size)
+    }
+    unsafe fn dealloc(&self, p: *mut u8, l: Layout) {
+        System.dealloc(p, l)
+    }
+}
+
+pub fn measure<T>(f: impl FnOnce() -> T) -> (T, Rec) {
+    REC.with(|r| r.set(Rec { enabled: true, total: 0, max: 0, count: 0 }));
+    let out = f();
+    let rec = REC.with(|r| {
+        let v = r.get();
+        r.set(Rec::default());
+        v
+    });
+    (out, rec)
+}
+
+// ---------------------------------------------------------------- histories
+
+/// configuration members: (k, r, size class) ; size class 0 = big shard, 1 = small (66 at scale 1)
+#[derive(Clone, Copy, Debug, PartialEq)]
+struct Member {
+    k: usize,
+    r: usize,
+    small: bool,
+}
+
+#[derive(Clone, Debug, PartialEq)]
+enum Step {
+    Round,
+    Abandon,
+    Reset(usize),
+    Recycle(Kind, usize),
+    /// positive control only: reset to a configuration that needs more than is held
+    Grow,
+}
+
+fn fmt_steps(s: &[Step]) -> String {
+    if s.is_empty() {
+        return "-".into();
+    }
+    s.iter()
+        .map(|x| match x {
+            Step::Round => "round".to_string(),
+            Step::Abandon => "abandon".to_string(),
+            Step::Reset(m) => format!("reset{m}"),
+            Step::Recycle(k, m) => format!("rec{}{m}", k.name()),
+            Step::Grow => "grow".to_string(),
+        })
+        .collect::<Vec<_>>()
+        .join(",")
+}
+fn parse_steps(s: &str) -> Vec<Step> {
+    if s == "-" {
+        return vec![];
+    }
+    s.split(',')
+        .map(|t| {
+            if t == "round" {
+                Step::Round
+            } else if t == "abandon" {
+                Step::Abandon
+            } else if t == "grow" {
+                Step::Grow
+            } else if let Some(m) = t.strip_prefix("reset") {
+                Step::Reset(m.parse().unwrap())
+            } else if let Some(rest) = t.strip_prefix("rec") {
+                for kind in [Kind::High, Kind::Low, Kind::Def] {
+                    if let Some(m) = rest.strip_prefix(kind.name()) {
+                        return Step::Recycle(kind, m.parse().unwrap());
+                    }
+                }
+                panic!("step {t}")
+            } else {
+                panic!("step {t}")
+            }
+        })
+        .collect()
+}
+
+struct Family {
+    name: &'static str,
+    members: Vec<Member>,
+    /// (k, r, bytes) of member m at scale s (s = 1 or 2)
+    cfg: fn(&Member, usize) -> (usize, usize, usize),
+    /// minimal growth of allocated bytes between the scales that counts as proportional
+    slack: fn(&[Member]) -> u64,
+}
+
+fn shard_family() -> Family {
+    Family {
+        name: "shard-size",
+        members: vec![
+            Member { k: 8, r: 8, small: false },
+            Member { k: 9, r: 2, small: false },
+            Member { k: 2, r: 9, small: false },
+            Member { k: 3, r: 5, small: false },
+            Member { k: 1, r: 1, small: false },
+            Member { k: 8, r: 8, small: true },
+            Member { k: 2, r: 9, small: true },
+            Member { k: 5, r: 3, small: true },
+        ],
+        cfg: |m, s| (m.k, m.r, if m.small { 66 * s } else { 32768 * s }),
+        // half of one big shard at scale 1
+        slack: |_| 16384,
+    }
+}
+
+fn count_family() -> Family {
+    Family {
+        name: "shard-count",
+        members: vec![
+            Member { k: 1024, r: 1024, small: false },
+            Member { k: 1500, r: 100, small: false },
+            Member { k: 100, r: 1500, small: false },
+            Member { k: 600, r: 700, small: false },
+            Member { k: 1024, r: 1024, small: true },
+            Member { k: 3, r: 5, small: true },
+        ],
+        cfg: |m, s| (if m.small && m.k < 10 { m.k } else { m.k * s }, if m.small && m.k < 10 { m.r } else { m.r * s }, if m.small { 2 } else { 64 }),
+        // a quarter of the bitmap growth of the biggest member (2048 extra positions / 8 bits = 256 bytes -> 64)
+        slack: |_| 64,
+    }
+}
+
+fn need(kind: Kind, decoder: bool, k: usize, r: usize, b: usize) -> (usize, usize) {
+    let blocks = spec_work_blocks(kind, decoder, k, r, b);
+    let hi = spec_is_high(kind, k, r);
+    let bits = if !decoder {
+        0
+    } else if hi {
+        pow2ceil(r) + k
+    } else {
+        pow2ceil(k) + r
+    };
+    (blocks, bits)
+}
+
+/// run one history at one scale; returns allocation record of the measured region
+fn run_history<E: Eng>(fam: &Family, decoder: bool, kind0: Kind, steps: &[Step], scale: usize, seed: u64) -> Result<Rec, String> {
+    // construct at a configuration that dominates every member for every kind: do it by
+    // constructing the largest and then (outside the measured region) resetting through all members
+    let mut kind = kind0;
+    let cfgs: Vec<(usize, usize, usize)> = fam.members.iter().map(|m| (fam.cfg)(m, scale)).collect();
+    let maxb = cfgs.iter().map(|c| c.2).max().unwrap();
+    let maxk = cfgs.iter().map(|c| c.0.max(c.1)).max().unwrap();
+    let mut rng = Rng::new(seed);
+    let mut shard = vec![0u8; maxb * 2];
+    rng.fill(&mut shard);
+    let _ = maxk;
+    let mut enc: Option<AnyEnc<E>> = None;
+    let mut dec: Option<AnyDec<E>> = None;
+    // warm-up (not measured): visit every member in every rate so that the object holds the maximum
+    let kinds: Vec<Kind> = if kind0 == Kind::Rs { vec![Kind::Rs] } else { vec![Kind::High, Kind::Low, Kind::Def, kind0] };
+    for (ki, kd) in kinds.iter().enumerate() {
+        for (mi, &(k, r, b)) in cfgs.iter().enumerate() {
+            if decoder {
+                if ki == 0 && mi == 0 {
+                    dec = Some(AnyDec::<E>::new(*kd, k, r, b, None).map_err(|e| format!("{e:?}"))?);
+                } else if *kd == Kind::Rs {
+                    dec.as_mut().unwrap().reset(k, r, b).map_err(|e| format!("{e:?}"))?;
+                } else {
+                    let w = dec.take().unwrap().into_work().unwrap();
+                    dec = Some(AnyDec::<E>::new(*kd, k, r, b, Some(w)).map_err(|e| format!("{e:?}"))?);
+                }
+            } else if ki == 0 && mi == 0 {
+                enc = Some(AnyEnc::<E>::new(*kd, k, r, b, None).map_err(|e| format!("{e:?}"))?);
+            } else if *kd == Kind::Rs {
+                enc.as_mut().unwrap().reset(k, r, b).map_err(|e| format!("{e:?}"))?;
+            } else {
+                let w = enc.take().unwrap().into_work().unwrap();
+                enc = Some(AnyEnc::<E>::new(*kd, k, r, b, Some(w)).map_err(|e| format!("{e:?}"))?);
+            }
+        }
+    }
+    // start configuration = member 0 in kind0
+    let (mut k, mut r, mut b) = cfgs[0];
+    if decoder {
+        if kind0 == Kind::Rs {
+            dec.as_mut().unwrap().reset(k, r, b).map_err(|e| format!("{e:?}"))?;
+        } else {
+            let w = dec.take().unwrap().into_work().unwrap();
+            dec = Some(AnyDec::<E>::new(kind0, k, r, b, Some(w)).map_err(|e| format!("{e:?}"))?);
+        }
+    } else if kind0 == Kind::Rs {
+        enc.as_mut().unwrap().reset(k, r, b).map_err(|e| format!("{e:?}"))?;
+    } else {
+        let w = enc.take().unwrap().into_work().unwrap();
+        enc = Some(AnyEnc::<E>::new(kind0, k, r, b, Some(w)).map_err(|e| format!("{e:?}"))?);
+    }
+    let mut sink = 0u64;
+    let (res, rec) = measure(|| -> Result<(), String> {
+        for st in steps {
+            match st {
+                Step::Round | Step::Abandon => {
+                    let full = *st == Step::Round;
+                    if decoder {
+                        let d = dec.as_mut().unwrap();
+                        // arbitrary (inconsistent) shard contents are fine: allocation behaviour only
+                        let m = k.min(r);
+                        let n_r = if full { m } else { m.div_ceil(2) };
+                        for j in 0..n_r {
+                            d.add_recovery(j, &shard[..b]).map_err(|e| format!("{e:?}"))?;
+                        }
+                        let upto = if full { k } else { m + (k - m) / 2 };
+                        for i in m..upto {
+                            d.add_original(i, &shard[..b]).map_err(|e| format!("{e:?}"))?;
+                        }
+                        if full {
+                            let res = d.decode().map_err(|e| format!("{e:?}"))?;
+                            for (i, s) in res.restored_original_iter() {
+                                sink = sink.wrapping_add(i as u64 + s[0] as u64 + s.len() as u64);
+                            }
+                            if let Some(s) = res.restored_original(0) {
+                                sink = sink.wrapping_add(s[s.len() - 1] as u64);
+                            }
+                        }
+                    } else {
+                        let e = enc.as_mut().unwrap();
+                        let n_add = if full { k } else { k.div_ceil(2) };
+                        for _ in 0..n_add {
+                            e.add(&shard[..b]).map_err(|e| format!("{e:?}"))?;
+                        }
+                        if full {
+                            let res = e.encode().map_err(|e| format!("{e:?}"))?;
+                            for s in res.recovery_iter() {
+                                sink = sink.wrapping_add(s[0] as u64 + s.len() as u64);
+                            }
+                            if let Some(s) = res.recovery(0) {
+                                sink = sink.wrapping_add(s[s.len() - 1] as u64);
+                            }
+                        }
+                    }
+                }
+                Step::Reset(m) => {
+                    (k, r, b) = cfgs[*m];
+                    if decoder {
+                        dec.as_mut().unwrap().reset(k, r, b).map_err(|e| format!("{e:?}"))?;
+                    } else {
+                        enc.as_mut().unwrap().reset(k, r, b).map_err(|e| format!("{e:?}"))?;
+                    }
+                }
+                Step::Recycle(kd, m) => {
+                    (k, r, b) = cfgs[*m];
+                    kind = *kd;
+                    if decoder {
+                        let w = dec.take().unwrap().into_work().unwrap();
+                        dec = Some(AnyDec::<E>::new(kind, k, r, b, Some(w)).map_err(|e| format!("{e:?}"))?);
+                    } else {
+                        let w = enc.take().unwrap().into_work().unwrap();
+                        enc = Some(AnyEnc::<E>::new(kind, k, r, b, Some(w)).map_err(|e| format!("{e:?}"))?);
+                    }
+                }
+                Step::Grow => {
+                    // needs more than any member: twice the biggest shard size (positive control)
+                    let (k0, r0, _) = cfgs[0];
+                    (k, r, b) = (k0 * 2, r0 * 2, maxb * 2);
+                    if decoder {
+                        dec.as_mut().unwrap().reset(k0 * 2, r0 * 2, maxb * 2).map_err(|e| format!("{e:?}"))?;
+                    } else {
+                        enc.as_mut().unwrap().reset(k0 * 2, r0 * 2, maxb * 2).map_err(|e| format!("{e:?}"))?;
+                    }
+                }
+            }
+        }
+        Ok(())
+    });
+    std::hint::black_box(sink);
+    let _ = need;
+    res?;
+    Ok(rec)
+}
+
+fn check_history(fam: &Family, eng: &str, decoder: bool, kind0: Kind, steps: &[Step], seed: u64) -> Result<(Rec, Rec), (String, String)> {
+    let run = |scale: usize| -> Result<Rec, (String, String)> {
+        match guard(|| with_engine!(eng, E => run_history::<E>(fam, decoder, kind0, steps, scale, seed))) {
+            Ok(Ok(r)) => Ok(r),
+            Ok(Err(e)) => Err(("every step of the history succeeds".into(), e)),
+            Err(p) => Err(("no panic".into(), format!("PANIC: {p}"))),
+        }
+    };
+    let a = run(1)?;
+    let b = run(2)?;
+    let slack = (fam.slack)(&fam.members);
+    if b.total >= a.total + slack {
+        return Err((
+            format!("bytes allocated in the measured region do not grow with the {} ({} B at scale 1, {} allocations, largest {} B)", fam.name, a.total, a.count, a.max),
+            format!("{} B at scale 2 ({} allocations, largest {} B): at least {} B of {}-proportional memory", b.total, b.count, b.max, b.total - a.total, fam.name),
+        ));
+    }
+    Ok((a, b))
+}
+
+fn family_by_name(n: &str) -> Family {
+    if n == "shard-size" {
+        shard_family()
+    } else {
+        count_family()
+    }
+}
+
+pub fn replay(_ctx: &Ctx, case: &str) -> Result<(), String> {
+    let kv = Kv::parse(case)?;
+    let fam = family_by_name(kv.str("family"));
+    check_history(&fam, kv.str("eng"), kv.str("dir") == "dec", Kind::parse(kv.str("kind")), &parse_steps(kv.str("steps")), kv.u64("seed")).map(|_| ()).map_err(|(e, o)| format!("expected {e}; observed {o}"))
+}
+
+fn gen(fam: &Family, kind0: Kind, d: usize) -> Vec<Vec<Step>> {
+    let mut alphabet: Vec<Step> = vec![Step::Round, Step::Abandon];
+    for m in 0..fam.members.len() {
+        alphabet.push(Step::Reset(m));
+    }
+    if kind0 != Kind::Rs {
+        for kind in [Kind::High, Kind::Low, Kind::Def] {
+            for m in 0..fam.members.len() {
+                alphabet.push(Step::Recycle(kind, m));
+            }
+        }
+    }
+    let mut out: Vec<Vec<Step>> = Vec::new();
+    let mut level: Vec<Vec<Step>> = vec![vec![]];
+    for _ in 0..d {
+        let mut next = Vec::new();
+        for s in &level {
+            for a in &alphabet {
+                // an abandoned round directly followed by a round would exceed the counts: skip
+                if matches!(s.last(), Some(Step::Abandon)) && matches!(a, Step::Round | Step::Abandon) {
+                    continue;
+                }
+                let mut t = s.clone();
+                t.push(a.clone());
+                next.push(t);
+            }
+        }
+        out.extend(next.iter().cloned());
+        level = next;
+    }
+    // every history ends with a completed round so that the final configuration is really used
+    for h in out.iter_mut() {
+        if !matches!(h.last(), Some(Step::Round)) {
+            if matches!(h.last(), Some(Step::Abandon)) {
+                h.pop();
+            }
+            h.push(Step::Round);
+        }
+    }
+    out.sort_by_key(|h| (h.len(), fmt_steps(h)));
+    out.dedup();
+    out
+}
+
+pub fn run(ctx: &Ctx, rep: &mut Report) {
+    let seed = ctx.seed;
+    // tables are process-wide one-time allocations: touch them before anything is measured
+    let _ = (&*reed_solomon_simd::engine::tables::LOG_WALSH, &*reed_solomon_simd::engine::tables::MUL16, &*reed_solomon_simd::engine::tables::MUL128, &*reed_solomon_simd::engine::tables::SKEW);
+    rep.rule = "case = (family, direction, start kind, engine, history of <= d steps over {round, abandoned round, reset to any member, recycle into {high,low,default} at any member}, closed by a completed round); the object first visits every member in every rate (not measured) so it holds the maximum; measured region = the history, executed at scale 1 and scale 2 (shard sizes doubled / counts doubled); bytes allocated there must not grow with the scale; non-trivial = histories containing a reset or recycle; distinct by (family,direction,kind,engine,history)".into();
+    rep.assume("allocation = calls of the global allocator on the measuring thread (alloc, alloc_zeroed, growing realloc); shard data and result reading use borrowed slices only");
+    rep.assume("criterion is growth with scale, so constant-size allocations of any size are never reported");
+    let d = if ctx.thorough() { 3 } else { 2 };
+    rep.bound("depth", J::i(d));
+    let mut jobs: Vec<(&'static str, bool, Kind, &'static str, Vec<Step>)> = Vec::new();
+    for famname in ["shard-size", "shard-count"] {
+        let fam = family_by_name(famname);
+        for decoder in [false, true] {
+            for kind0 in [Kind::Rs, Kind::Def, Kind::High, Kind::Low] {
+                let eng: &'static str = if kind0 == Kind::Rs { "default" } else { "nosimd" };
+                let dd = if famname == "shard-count" { d.min(2) } else { d };
+                for h in gen(&fam, kind0, dd) {
+                    if famname == "shard-count" && !ctx.thorough() && h.len() > 2 {
+                        continue;
+                    }
+                    jobs.push((famname, decoder, kind0, eng, h));
+                }
+                if ctx.thorough() && kind0 == Kind::Def && famname == "shard-size" {
+                    for h in gen(&fam, kind0, 2) {
+                        jobs.push((famname, decoder, kind0, "default", h));
+                    }
+                }
+            }
+        }
+    }
+    let results: Vec<Result<(Rec, Rec), (String, String)>> = par_for(jobs.len(), 4, |i| {
+        let (famname, decoder, kind0, eng, h) = &jobs[i];
+        check_history(&family_by_name(famname), eng, *decoder, *kind0, h, seed)
+    });
+    let mut max_total = 0u64;
+    for ((famname, decoder, kind0, eng, h), res) in jobs.iter().zip(results) {
+        rep.states += h.len() as u64 + 1;
+        rep.transitions += 2 * h.len() as u64;
+        rep.traces += 2;
+        rep.evaluations += 2;
+        if h.iter().any(|s| matches!(s, Step::Reset(_) | Step::Recycle(_, _))) {
+            rep.distinct += 1;
+        }
+        match res {
+            Ok((a, b)) => max_total = max_total.max(a.total).max(b.total),
+            Err((exp, obs)) => {
+                let kv = Kv::new().with("family", famname).with("eng", eng).with("dir", if *decoder { "dec" } else { "enc" }).with("kind", kind0.name()).with("steps", fmt_steps(h)).with("seed", seed);
+                rep.violation(Violation { key: format!("{famname}-{}-{}-{}-{}", if *decoder { "dec" } else { "enc" }, kind0.name(), eng, fmt_steps(h)), case: kv.dump(), expected: exp, observed: obs });
+            }
+        }
+    }
+    rep.extra("largest_total_bytes_allocated_in_any_measured_region", J::i(max_total));
+    // positive controls: growing beyond what is held must be seen by the monitor
+    for famname in ["shard-size", "shard-count"] {
+        let fam = family_by_name(famname);
+        for decoder in [false, true] {
+            match check_history(&fam, "nosimd", decoder, Kind::Def, &[Step::Grow, Step::Round], seed) {
+                Err((_, obs)) if obs.contains("proportional") => {}
+                other => rep.machinery_errors.push(format!("positive control failed ({famname}, decoder={decoder}): growing reset not seen by the allocation monitor: {:?}", other.map(|(a, b)| (a.total, b.total)))),
+            }
+        }
+    }
+    rep.extra("positive_controls", J::s("growing reset reported as scale-proportional allocation in 4/4 controls"));
+    for i in [0, jobs.len() / 3, jobs.len() / 2, jobs.len() - 1] {
+        let (famname, decoder, kind0, eng, h) = &jobs[i];
+        rep.sample(Kv::new().with("family", famname).with("eng", eng).with("dir", if *decoder { "dec" } else { "enc" }).with("kind", kind0.name()).with("steps", fmt_steps(h)).dump());
+    }
+}
